@@ -47,18 +47,43 @@ example : checkFwd (processRequest exCfg exCtx exReq) (fun out =>
       | .forwarded (.direct a) _ => a == bs "origin.test:8080" | _ => false) = true := by
   decide +kernel
 
+/-- a hop the transport speaks HTTP-proxy protocol to (upstream HTTP or HTTPS proxy; also a proxy
+    of an unsupported scheme, which the transport treats as an HTTP proxy) receives the absolute
+    form `http://host/path?query` -/
+theorem c01_target_speaks_proxy (h : processRequest cfg ctx r = .forwarded hop out)
+    (hd : hop.speaksProxy = true) :
+    out.target = bs "http" ++ bs "://" ++ hostOf r ++ (r.path ++ queryPart r) := by
+  obtain ⟨g0, h3, h4, auth, t⟩ := processRequest_forwarded h
+  rcases t.hop with hh | ⟨_, hs⟩ | ⟨hp', hh⟩
+  · rw [hh] at hd; cases hd
+  · rw [t.out, writeRequest_target]
+    have : targetOf hop { fixup ctx g0 with header := finish cfg (upgradeType g0.header) h4 } =
+        (if (fixup ctx g0).scheme == bs "http" then
+          (fixup ctx g0).scheme ++ bs "://" ++ (fixup ctx g0).host ++
+            requestURI { fixup ctx g0 with header := finish cfg (upgradeType g0.header) h4 }
+         else requestURI { fixup ctx g0 with header := finish cfg (upgradeType g0.header) h4 }) := by
+      cases hop with
+      | direct a => cases hd
+      | socks a => cases hd
+      | proxy a => rfl
+      | tlsProxy a => rfl
+      | otherProxy sc a => rfl
+    rw [this, hs, t.spec.requestURI ctx _, t.spec.fixup_host]
+    simp
+  · rw [hh] at hd; cases hd
+
 /-- an upstream HTTP proxy receives the absolute form `http://host/path?query` -/
 theorem c01_target_proxy (h : processRequest cfg ctx r = .forwarded hop out) {hp : Bytes}
     (hd : hop = .proxy hp) :
-    out.target = bs "http" ++ bs "://" ++ hostOf r ++ (r.path ++ queryPart r) := by
+    out.target = bs "http" ++ bs "://" ++ hostOf r ++ (r.path ++ queryPart r) :=
+  c01_target_speaks_proxy h (by rw [hd]; rfl)
+
+/-- through a SOCKS5 proxy the message goes to the origin: origin-form target -/
+theorem c01_target_socks (h : processRequest cfg ctx r = .forwarded hop out) {hp : Bytes}
+    (hd : hop = .socks hp) : out.target = r.path ++ queryPart r := by
   obtain ⟨g0, h3, h4, auth, t⟩ := processRequest_forwarded h
-  rcases t.hop with hh | ⟨hp', _, hs⟩
-  · rw [hd] at hh; cases hh
-  · rw [t.out, writeRequest_target, hd]
-    show (if (fixup ctx g0).scheme == bs "http" then
-        (fixup ctx g0).scheme ++ bs "://" ++ (fixup ctx g0).host ++ requestURI _ else requestURI _) = _
-    rw [hs, t.spec.requestURI ctx _, t.spec.fixup_host]
-    simp
+  rw [t.out, writeRequest_target, hd]
+  exact t.spec.requestURI ctx _
 
 example : checkFwd (processRequest exCfgUp exCtx exReq) (fun out =>
       out.target == bs "http://origin.test:8080/a/b?x=1&y=%2f") = true ∧
@@ -71,7 +96,10 @@ theorem c01_target_suffix (h : processRequest cfg ctx r = .forwarded hop out) :
     ∃ pre, out.target = pre ++ (r.path ++ queryPart r) := by
   cases hop with
   | direct a => exact ⟨[], by rw [c01_target_direct h rfl]; rfl⟩
-  | proxy hp => exact ⟨_, c01_target_proxy h rfl⟩
+  | socks hp => exact ⟨[], by rw [c01_target_socks h rfl]; rfl⟩
+  | proxy hp => exact ⟨_, c01_target_speaks_proxy h rfl⟩
+  | tlsProxy hp => exact ⟨_, c01_target_speaks_proxy h rfl⟩
+  | otherProxy sc hp => exact ⟨_, c01_target_speaks_proxy h rfl⟩
 
 /-- Host is the authority of an absolute-form target, else the client's first `Host` value -/
 theorem c01_host (h : processRequest cfg ctx r = .forwarded hop out) (hr : cfg.rules = []) :
@@ -292,10 +320,11 @@ example : inValues exReqUpgrade (bs "user-agent") = [] ∧
 
 /-! ## 6 Via and X-Forwarded-For -/
 
-/-- Via, exactly: the first surviving client value, then the proxy's element -/
+/-- Via, exactly: the surviving client chain — ALL Via field lines combined in order with ", "
+    (RFC 9110 §5.3) — then the proxy's element -/
 theorem c01_via_exact (h : processRequest cfg ctx r = .forwarded hop out) (hr : cfg.rules = []) :
     outValues out (bs "via") =
-      [(if (survivingFirst r (bs "via")).isEmpty then [] else survivingFirst r (bs "via") ++ bs ", ")
+      [(if (survivingChain r (bs "via")).isEmpty then [] else survivingChain r (bs "via") ++ bs ", ")
         ++ viaElement cfg r] := by
   obtain ⟨g0, h3, h4, auth, t⟩ := processRequest_forwarded h
   rw [t.outValues_other hr (n := bs "via") (by decide +kernel) (by decide +kernel)
@@ -303,72 +332,57 @@ theorem c01_via_exact (h : processRequest cfg ctx r = .forwarded hop out) (hr : 
     show canonicalKey (bs "via") = bs "Via" from by decide +kernel, t.hget8_via hr]
   simp [viaValue, viaElement, List.append_assoc]
 
-/-- one Via element is appended to the client's FIRST Via value (what the code does, F11a) -/
+/-- one Via element is appended to the client's whole Via chain (every field line counts) -/
 theorem c01_via_appended (h : processRequest cfg ctx r = .forwarded hop out) (hr : cfg.rules = [])
     (hnom : bs "via" ∉ nominated r) :
     outValues out (bs "via") =
-      [(if (firstValue r (bs "via")).isEmpty then [] else firstValue r (bs "via") ++ bs ", ")
+      [(if (chainOf r (bs "via")).isEmpty then [] else chainOf r (bs "via") ++ bs ", ")
         ++ (protoText r.minor ++ [32] ++ cfg.tag)] := by
   rw [c01_via_exact h hr]
-  simp [survivingFirst, survivingValues, hnom, firstValue, viaElement]
+  simp [survivingChain, survivingValues, hnom, chainOf, viaElement]
 
-example : bs "via" ∉ nominated exReq ∧ firstValue exReq (bs "via") = bs "1.0 edge" ∧
+example : bs "via" ∉ nominated exReq ∧ chainOf exReq (bs "via") = bs "1.0 edge" ∧
     checkFwd (processRequest exCfg exCtx exReq) (fun out =>
       outValues out (bs "via") == [bs "1.0 edge, 1.1 fwd-0123456789abcdef0123"]) = true ∧
     checkFwd (processRequest exCfg exCtx exReqUpgrade) (fun out =>
       outValues out (bs "via") == [bs "1.1 fwd-0123456789abcdef0123"]) = true := by decide +kernel
 
-/-- full-strength clause: the whole client chain (all non-empty Via lines, in order) followed by
-    the proxy's element — FALSE of the unchanged code (F11a), see the witness -/
-def c01_via_full : Prop :=
-  ∀ (cfg : Cfg) (ctx : Ctx) (r : Request) (hop : Hop) (out : OutMsg),
-    processRequest cfg ctx r = .forwarded hop out → cfg.rules = [] → bs "via" ∉ nominated r →
-    outValues out (bs "via") =
-      [joinWith (bs ", ") ((inValues r (bs "via")).filter (fun v => !v.isEmpty) ++ [viaElement cfg r])]
-
-/-- the full clause for requests with at most one Via line -/
-theorem c01_via_appended_partial (h : processRequest cfg ctx r = .forwarded hop out)
-    (hr : cfg.rules = []) (hnom : bs "via" ∉ nominated r)
-    (hone : (inValues r (bs "via")).length ≤ 1) :
+/-- full-strength clause (formerly false of the code, F11a — fixed): the whole client chain, all
+    Via lines in order, followed by the proxy's element, as ONE list value.  The hypothesis `hne`
+    (no client Via line is empty) only fixes the spelling: an empty field line is combined like any
+    other (RFC 9110 §5.3) and then shows as an empty list element — `c01_via_appended` gives the
+    exact bytes for every request, `c18_chain_kept_full` the element-level statement without it. -/
+theorem c01_via_full (h : processRequest cfg ctx r = .forwarded hop out) (hr : cfg.rules = [])
+    (hnom : bs "via" ∉ nominated r) (hne : ∀ v ∈ inValues r (bs "via"), v ≠ []) :
     outValues out (bs "via") =
       [joinWith (bs ", ") ((inValues r (bs "via")).filter (fun v => !v.isEmpty) ++ [viaElement cfg r])] := by
-  rw [c01_via_appended h hr hnom]
-  unfold firstValue viaElement
-  rcases hv : inValues r (bs "via") with _ | ⟨v, _ | ⟨w, rest⟩⟩
-  · simp [joinWith]
-  · by_cases he : v.isEmpty = true
-    · simp [joinWith, he]
-    · simp [joinWith, he, List.append_assoc]
-  · rw [hv] at hone
-    simp at hone
+  have hf : (inValues r (bs "via")).filter (fun v => !v.isEmpty) = inValues r (bs "via") := by
+    apply List.filter_eq_self.mpr
+    intro v hv
+    simpa [List.isEmpty_iff] using hne v hv
+  rw [c01_via_appended h hr hnom, hf, joinWith_append_singleton _ _ _ hne]
+  rfl
 
-example : (inValues exReq (bs "via")).length ≤ 1 ∧ bs "via" ∉ nominated exReq := by decide +kernel
-
-/-- two Via lines `1.0 a`, `1.1 b`: the next hop sees `1.0 a, 1.1 <tag>` — `1.1 b` is lost -/
-theorem c01_via_witness :
-    isFwd (processRequest exCfg exCtx exReqChains) = true ∧ bs "via" ∉ nominated exReqChains ∧
+/-- two Via lines `1.0 a`, `1.1 b`: the next hop sees `1.0 a, 1.1 b, 1.1 <tag>` (the former F11a
+    witness: `1.1 b` used to be lost) -/
+example : isFwd (processRequest exCfg exCtx exReqChains) = true ∧ bs "via" ∉ nominated exReqChains ∧
+    (∀ v ∈ inValues exReqChains (bs "via"), v ≠ []) ∧
     checkFwd (processRequest exCfg exCtx exReqChains) (fun out =>
-      outValues out (bs "via") == [bs "1.0 a, 1.1 fwd-0123456789abcdef0123"]) = true ∧
-    checkFwd (processRequest exCfg exCtx exReqChains) (fun out =>
-      decide (outValues out (bs "via") =
-        [joinWith (bs ", ") ((inValues exReqChains (bs "via")).filter (fun v => !v.isEmpty)
-          ++ [viaElement exCfg exReqChains])])) = false := by decide +kernel
+      outValues out (bs "via") == [bs "1.0 a, 1.1 b, 1.1 fwd-0123456789abcdef0123"]) = true := by
+  decide +kernel
 
-theorem c01_via_full_false : ¬ c01_via_full := by
-  intro hfull
-  have := checkFwd_of (o := processRequest exCfg exCtx exReqChains)
-    (p := fun out => decide (outValues out (bs "via") =
-        [joinWith (bs ", ") ((inValues exReqChains (bs "via")).filter (fun v => !v.isEmpty)
-          ++ [viaElement exCfg exReqChains])]))
-    (fun hop out ho => decide_eq_true (hfull _ _ _ hop out ho rfl c01_via_witness.2.1))
-  rw [c01_via_witness.2.2.2] at this
-  exact Bool.false_ne_true this
+-- an empty Via line between two others is combined as an empty element (why `hne` is there)
+example : checkFwd (processRequest exCfg exCtx
+      { exReqChains with fields := [(bs "Host", bs "o"), (bs "Via", bs "1.0 a"), (bs "Via", []), (bs "Via", bs "1.1 b")] })
+      (fun out => outValues out (bs "via") == [bs "1.0 a, , 1.1 b, 1.1 fwd-0123456789abcdef0123"]) = true := by
+  decide +kernel
 
-/-- X-Forwarded-For, exactly: the first surviving client value, then the client address -/
+/-- X-Forwarded-For, exactly: the surviving client chain (all field lines combined), then the
+    client address -/
 theorem c01_xff_exact (h : processRequest cfg ctx r = .forwarded hop out) (hr : cfg.rules = []) :
     outValues out (bs "x-forwarded-for") =
-      [if (survivingFirst r (bs "x-forwarded-for")).isEmpty then ctx.clientIP
-       else survivingFirst r (bs "x-forwarded-for") ++ bs ", " ++ ctx.clientIP] := by
+      [if (survivingChain r (bs "x-forwarded-for")).isEmpty then ctx.clientIP
+       else survivingChain r (bs "x-forwarded-for") ++ bs ", " ++ ctx.clientIP] := by
   obtain ⟨g0, h3, h4, auth, t⟩ := processRequest_forwarded h
   rw [t.outValues_other hr (n := bs "x-forwarded-for") (by decide +kernel) (by decide +kernel)
       (by decide +kernel),
@@ -376,14 +390,14 @@ theorem c01_xff_exact (h : processRequest cfg ctx r = .forwarded hop out) (hr : 
       decide +kernel,
     t.hget8_xff hr]
 
-/-- the client address is appended to the client's FIRST X-Forwarded-For value (F11b) -/
+/-- the client address is appended to the client's whole X-Forwarded-For chain -/
 theorem c01_xff_appended (h : processRequest cfg ctx r = .forwarded hop out) (hr : cfg.rules = [])
     (hnom : bs "x-forwarded-for" ∉ nominated r) :
     outValues out (bs "x-forwarded-for") =
-      [if (firstValue r (bs "x-forwarded-for")).isEmpty then ctx.clientIP
-       else firstValue r (bs "x-forwarded-for") ++ bs ", " ++ ctx.clientIP] := by
+      [if (chainOf r (bs "x-forwarded-for")).isEmpty then ctx.clientIP
+       else chainOf r (bs "x-forwarded-for") ++ bs ", " ++ ctx.clientIP] := by
   rw [c01_xff_exact h hr]
-  simp [survivingFirst, survivingValues, hnom, firstValue]
+  simp [survivingChain, survivingValues, hnom, chainOf]
 
 example : bs "x-forwarded-for" ∉ nominated exReq ∧
     checkFwd (processRequest exCfg exCtx exReq) (fun out =>
@@ -391,55 +405,31 @@ example : bs "x-forwarded-for" ∉ nominated exReq ∧
     checkFwd (processRequest exCfg exCtx exReqUpgrade) (fun out =>
       outValues out (bs "x-forwarded-for") == [bs "192.0.2.7"]) = true := by decide +kernel
 
-/-- full-strength clause: all non-empty client X-Forwarded-For lines, then the client address —
-    FALSE of the unchanged code (F11b) -/
-def c01_xff_full : Prop :=
-  ∀ (cfg : Cfg) (ctx : Ctx) (r : Request) (hop : Hop) (out : OutMsg),
-    processRequest cfg ctx r = .forwarded hop out → cfg.rules = [] →
-    bs "x-forwarded-for" ∉ nominated r →
-    outValues out (bs "x-forwarded-for") =
-      [joinWith (bs ", ") ((inValues r (bs "x-forwarded-for")).filter (fun v => !v.isEmpty)
-        ++ [ctx.clientIP])]
-
-theorem c01_xff_appended_partial (h : processRequest cfg ctx r = .forwarded hop out)
-    (hr : cfg.rules = []) (hnom : bs "x-forwarded-for" ∉ nominated r)
-    (hone : (inValues r (bs "x-forwarded-for")).length ≤ 1) :
+/-- full-strength clause (formerly false of the code, F11b — fixed): all client X-Forwarded-For
+    lines in order, then the client address, as one list value (`hne` as in `c01_via_full`;
+    `c01_xff_appended` gives the exact bytes for every request) -/
+theorem c01_xff_full (h : processRequest cfg ctx r = .forwarded hop out) (hr : cfg.rules = [])
+    (hnom : bs "x-forwarded-for" ∉ nominated r)
+    (hne : ∀ v ∈ inValues r (bs "x-forwarded-for"), v ≠ []) :
     outValues out (bs "x-forwarded-for") =
       [joinWith (bs ", ") ((inValues r (bs "x-forwarded-for")).filter (fun v => !v.isEmpty)
         ++ [ctx.clientIP])] := by
-  rw [c01_xff_appended h hr hnom]
-  unfold firstValue
-  rcases hv : inValues r (bs "x-forwarded-for") with _ | ⟨v, _ | ⟨w, rest⟩⟩
-  · simp [joinWith]
-  · by_cases he : v.isEmpty = true
-    · simp [joinWith, he]
-    · simp [joinWith, he, List.append_assoc]
-  · rw [hv] at hone
-    simp at hone
+  have hf : (inValues r (bs "x-forwarded-for")).filter (fun v => !v.isEmpty) =
+      inValues r (bs "x-forwarded-for") := by
+    apply List.filter_eq_self.mpr
+    intro v hv
+    simpa [List.isEmpty_iff] using hne v hv
+  rw [c01_xff_appended h hr hnom, hf, joinWith_append_singleton _ _ _ hne]
+  unfold chainOf
+  split <;> simp [List.append_assoc]
 
-example : (inValues exReq (bs "x-forwarded-for")).length ≤ 1 ∧
-    bs "x-forwarded-for" ∉ nominated exReq := by decide +kernel
-
-/-- two X-Forwarded-For lines: the second one is lost -/
-theorem c01_xff_witness :
-    isFwd (processRequest exCfg exCtx exReqChains) = true ∧
+/-- two X-Forwarded-For lines: both are kept, in order (the former F11b witness) -/
+example : isFwd (processRequest exCfg exCtx exReqChains) = true ∧
     bs "x-forwarded-for" ∉ nominated exReqChains ∧
+    (∀ v ∈ inValues exReqChains (bs "x-forwarded-for"), v ≠ []) ∧
     checkFwd (processRequest exCfg exCtx exReqChains) (fun out =>
-      outValues out (bs "x-forwarded-for") == [bs "198.51.100.1, 192.0.2.7"]) = true ∧
-    checkFwd (processRequest exCfg exCtx exReqChains) (fun out =>
-      decide (outValues out (bs "x-forwarded-for") =
-        [joinWith (bs ", ") ((inValues exReqChains (bs "x-forwarded-for")).filter
-          (fun v => !v.isEmpty) ++ [exCtx.clientIP])])) = false := by decide +kernel
-
-theorem c01_xff_full_false : ¬ c01_xff_full := by
-  intro hfull
-  have := checkFwd_of (o := processRequest exCfg exCtx exReqChains)
-    (p := fun out => decide (outValues out (bs "x-forwarded-for") =
-        [joinWith (bs ", ") ((inValues exReqChains (bs "x-forwarded-for")).filter
-          (fun v => !v.isEmpty) ++ [exCtx.clientIP])]))
-    (fun hop out ho => decide_eq_true (hfull _ _ _ hop out ho rfl c01_xff_witness.2.1))
-  rw [c01_xff_witness.2.2.2] at this
-  exact Bool.false_ne_true this
+      outValues out (bs "x-forwarded-for") == [bs "198.51.100.1, 198.51.100.2, 192.0.2.7"]) = true := by
+  decide +kernel
 
 /-! ## 7 X-Forwarded-Proto / -Host / -Url -/
 
@@ -569,26 +559,41 @@ theorem c01_accept_encoding_full_false : ¬ c01_accept_encoding_full := by
 
 /-! ## 10 totality -/
 
-/-- the pipeline never gets stuck: every request has one of the four outcomes -/
+/-- the pipeline never gets stuck: every request has one of the five outcomes -/
 theorem c01_refused_or_forwarded_total (cfg : Cfg) (ctx : Ctx) (r : Request) :
     processRequest cfg ctx r = .unreadable ∨ (∃ st why, processRequest cfg ctx r = .refused st why) ∨
-      processRequest cfg ctx r = .badRequest ∨
+      processRequest cfg ctx r = .badRequest ∨ processRequest cfg ctx r = .routeError ∨
       ∃ hop out, processRequest cfg ctx r = .forwarded hop out := by
   cases processRequest cfg ctx r with
   | unreadable => exact Or.inl rfl
   | refused st why => exact Or.inr (Or.inl ⟨st, why, rfl⟩)
   | badRequest => exact Or.inr (Or.inr (Or.inl rfl))
-  | forwarded hop out => exact Or.inr (Or.inr (Or.inr ⟨hop, out, rfl⟩))
+  | routeError => exact Or.inr (Or.inr (Or.inr (Or.inl rfl)))
+  | forwarded hop out => exact Or.inr (Or.inr (Or.inr (Or.inr ⟨hop, out, rfl⟩)))
 
 /-- a request inside the domain (`readRequest` succeeds) that no security modifier refuses, with
-    good framing and no Via loop, is forwarded -/
+    good framing and no Via loop, is forwarded — unless the proxy function itself failed
+    (`Upstream.failed`: PAC script error, unparsable entry), see `c01_route_error_when_accepted` -/
 theorem c01_forwarded_when_accepted {g0 : GoReq} {h3 h4 : HMap}
     (hread : readRequest r = .ok g0) (hsec : securityCheck cfg (fixup ctx g0) = none)
     (hframing : badFraming
       (forwarded ctx { fixup ctx g0 with header := removeHopByHop g0.header }) = some h3)
-    (hloop : viaStep cfg g0.minor h3 = some h4) :
-    ∃ hop out, processRequest cfg ctx r = .forwarded hop out :=
-  processRequest_of_stages hread hsec hframing hloop
+    (hloop : viaStep cfg g0.minor h3 = some h4) (hup : cfg.upstream ≠ .failed) :
+    ∃ hop out, processRequest cfg ctx r = .forwarded hop out := by
+  rcases processRequest_of_stages hread hsec hframing hloop with ⟨_, h⟩ | ⟨hf, _⟩
+  · exact h
+  · exact absurd hf hup
+
+/-- … and when the proxy function failed such a request gets the route error, no hop is contacted -/
+theorem c01_route_error_when_accepted {g0 : GoReq} {h3 h4 : HMap}
+    (hread : readRequest r = .ok g0) (hsec : securityCheck cfg (fixup ctx g0) = none)
+    (hframing : badFraming
+      (forwarded ctx { fixup ctx g0 with header := removeHopByHop g0.header }) = some h3)
+    (hloop : viaStep cfg g0.minor h3 = some h4) (hup : cfg.upstream = .failed) :
+    processRequest cfg ctx r = .routeError := by
+  rcases processRequest_of_stages hread hsec hframing hloop with ⟨hne, _⟩ | ⟨_, h⟩
+  · exact absurd hup hne
+  · exact h
 
 /-- … and conversely a forwarded request passed every one of these stages -/
 theorem c01_forwarded_only_when_accepted (h : processRequest cfg ctx r = .forwarded hop out) :
@@ -598,8 +603,14 @@ theorem c01_forwarded_only_when_accepted (h : processRequest cfg ctx r = .forwar
   obtain ⟨g0, h3, h4, auth, t⟩ := processRequest_forwarded h
   exact ⟨g0, h3, h4, t.read, t.sec, t.framing, t.via⟩
 
-example : isFwd (processRequest exCfg exCtx exReq) = true ∧
+example : isFwd (processRequest exCfg exCtx exReq) = true ∧ exCfg.upstream ≠ .failed ∧
     isFwd (processRequest exCfgUp exCtx exReq) = true ∧
+    processRequest { exCfg with upstream := .failed } exCtx exReq = .routeError ∧
+    -- HTTPS upstream proxy: absolute form; SOCKS5: origin form
+    checkFwd (processRequest { exCfg with upstream := .https (bs "up.test:443") none } exCtx exReq)
+      (fun out => out.target == bs "http://origin.test:8080/a/b?x=1&y=%2f") = true ∧
+    checkFwd (processRequest { exCfg with upstream := .socks5 (bs "up.test:1080") none } exCtx exReq)
+      (fun out => out.target == bs "/a/b?x=1&y=%2f") = true ∧
     -- a second Host line is outside the domain, a Via loop is refused
     processRequest exCfg exCtx { exReq with fields := (bs "Host", bs "x") :: exReq.fields } = .unreadable ∧
     processRequest exCfg exCtx
@@ -608,18 +619,22 @@ example : isFwd (processRequest exCfg exCtx exReq) = true ∧
 
 /-! ## 11 keep-alive connections -/
 
-/-- the model has no per-connection state: the outcome of the request at any position of a
-    keep-alive connection is that of the request on its own -/
+/-- the model has no per-connection state for plain requests: the outcome of the request at any
+    position of a keep-alive connection (`processConnection` of Model/Req.lean, over request items)
+    is that of the request on its own -/
 theorem c01_position_independent (cfg : Cfg) (ctx : Ctx) (pre post : List Request) (r : Request) :
-    (processConnection cfg ctx (pre ++ r :: post))[pre.length]? = some (processRequest cfg ctx r) := by
-  simp [processConnection]
+    (processConnection cfg ctx (reqItems (pre ++ r :: post)))[pre.length]? =
+      some (.req (processRequest cfg ctx r)) := by
+  simp [processConnection_reqItems]
 
 theorem c01_connection_pointwise (cfg : Cfg) (ctx : Ctx) (rs : List Request) (k : Nat) :
-    (processConnection cfg ctx rs)[k]? = rs[k]?.map (processRequest cfg ctx) := by
-  simp [processConnection]
+    (processConnection cfg ctx (reqItems rs))[k]? =
+      rs[k]?.map (fun r => ItemOutcome.req (processRequest cfg ctx r)) := by
+  simp [processConnection_reqItems]
 
-example : (processConnection exCfg exCtx [exReqChains, exReq, exReqUpgrade])[1]? =
-    some (processRequest exCfg exCtx exReq) := c01_position_independent exCfg exCtx [exReqChains] [exReqUpgrade] exReq
+example : (processConnection exCfg exCtx (reqItems [exReqChains, exReq, exReqUpgrade]))[1]? =
+    some (.req (processRequest exCfg exCtx exReq)) :=
+  c01_position_independent exCfg exCtx [exReqChains] [exReqUpgrade] exReq
 
 /-
   What is not proved here.
